@@ -1,4 +1,4 @@
 SPECIFICATION Spec
-CONSTANTS MaxExt = 7  IgnoreUntil = FALSE  AllowedFins = {}
+CONSTANTS MaxExt = 7  IgnoreUntil = FALSE  AllowedFins = {}  Extra = FALSE
 INVARIANTS FinBeforeOut C06
 CHECK_DEADLOCK FALSE
